@@ -71,7 +71,9 @@ def one_case(ctx, e, rng, idx):
     other = w.node("o", g2)
     w.edge(node, g2, autosync=True)             # makes post_add observable: one request per successful import
     root = node.root
-    outside = os.path.join(e.tmp, "outside")
+    # outside the node root, but its path has the root's path as a string prefix (…/n vs …/n-old): containment must be
+    # decided on path components, not characters
+    outside = root.rstrip("/") + "-old"
     tree = build_tree(e, rng, root, outside)
     rel = rng.choice(list(tree))
     kind = tree[rel]
